@@ -285,7 +285,7 @@ func TestVerifC13Stream(t *testing.T) {
 	nplans := len(c13Plans(w, rts[0]))
 	dims := []c13Dim{{"plan", c13Range(nplans)}, {"entry", c13Range(c13NEnt)}, {"tail", c13Range(3)}, {"read_granularity", grans},
 		{"peerstore", cfgs}, {"R_known_before", pres}, {"remote_key_type", rts}}
-	names := map[string][]string{"entry": c13EntNames, "tail": c13TailNames, "peerstore": c13PsNames, "remote_key_type": c13DimNames["remote_key_type"],
+	names := map[string][]string{"R_known_before": {"no", "yes"}, "entry": c13EntNames, "tail": c13TailNames, "peerstore": c13PsNames, "remote_key_type": c13DimNames["remote_key_type"],
 		"read_granularity": {"whole buffer", "1 byte per Read", "", "", "", "", "", "7 bytes per Read"}}
 	c13DimBounds(r, dims, names)
 	var pn []string
@@ -300,6 +300,7 @@ func TestVerifC13Stream(t *testing.T) {
 	rp := &c13Reporter{r: r}
 	var exec int64
 	var cmu sync.Mutex
+	var smp c13Sampler
 	c13Each(t, r, n, func(i int) error {
 		cs := c13Decode(dims, i)
 		var infra error
@@ -386,10 +387,10 @@ func TestVerifC13Stream(t *testing.T) {
 			}
 			cmu.Lock()
 			exec++
-			if exec%700 == 1 {
-				r.Sample(map[string]any{"plan": plan.Name, "tuple": c13NamedWith(dims, cs, names), "result": result, "addrs_after": nA, "protocols_after": nP})
-			}
 			cmu.Unlock()
+			if plan.NChunks >= 3 && cs["entry"] >= c13EntFullResp && i%5 == 2 && smp.take() {
+				r.Sample(map[string]any{"case_index": i, "plan": plan.Name, "tuple": c13NamedWith(dims, cs, names), "result": result, "addrs_after": nA, "protocols_after": nP})
+			}
 		})
 		if err != nil {
 			return err
